@@ -275,6 +275,9 @@ type callSpec struct {
 	id     int
 	msgs   []msgSpec
 	cancel bool // call with a context cancelled shortly after submission
+	// cancelOn (with cancel): "" = at a random moment within 1.5 ms; "pre" = the context is cancelled before the call;
+	// any other value = when the produce request held at the gate of that name has reached the broker
+	cancelOn string
 }
 
 type scenario struct {
@@ -491,6 +494,40 @@ func (b *builder) holdRetry(n int, first string) *scenario {
 	}
 	sc.callers = [][]callSpec{calls}
 	sc.faults[tpKey{"t", 0}] = []fault{{kind: first, gate: "p1", code: 5}, {kind: "lostack", code: 1}, {kind: "ok"}}
+	return sc
+}
+
+// ctxHold: a synchronous caller whose first call is cancelled while its first batch is in flight (the produce request
+// is held at the broker; variant "pre": the context is cancelled before the call), then writes again to the same
+// partition; the held attempt then ends as scripted (ack, lost ack, retriable / permanent code, dropped).
+// WriteMessages must return ctx.Err() without withdrawing anything: every message of the cancelled call still gets
+// produced (`unsent` counts them), in order before the next call's messages, with the scripted completion.
+func (b *builder) ctxHold(i int) *scenario {
+	r := b.r
+	sc := &scenario{name: "ctxhold" + strconv.Itoa(i), bs: 1 + i%3, bb: 1 << 20, ma: 2 + i%2, async: false, compl: i%2 == 0, wtopic: "t",
+		timeout: 2 * time.Millisecond, nparts: map[string]int{"t": 1 + i%2}, faults: map[tpKey][]fault{}, closeAt: -1, special: "ctxhold"}
+	b.nextC++
+	c1 := callSpec{id: b.nextC, cancel: true, cancelOn: "p1"}
+	if i%4 == 3 {
+		c1.cancelOn = "pre"
+	}
+	c1.msgs = append(c1.msgs, b.mkMsg(45, "", 0, false))
+	for k := 0; k < r.Intn(4); k++ {
+		c1.msgs = append(c1.msgs, b.mkMsg(40+r.Intn(10), "", r.Intn(sc.nparts["t"]), false))
+	}
+	b.nextC++
+	c2 := callSpec{id: b.nextC}
+	for k := 0; k < 1+r.Intn(3); k++ {
+		c2.msgs = append(c2.msgs, b.mkMsg(40+r.Intn(10), "", 0, false))
+	}
+	sc.callers = [][]callSpec{{c1, c2}}
+	if i%5 == 4 { // a second goroutine writing to the same partition meanwhile
+		b.nextC++
+		sc.callers = append(sc.callers, []callSpec{{id: b.nextC, msgs: []msgSpec{b.mkMsg(44, "", 0, false), b.mkMsg(44, "", 0, false)}}})
+	}
+	first := []fault{{kind: "ok"}, {kind: "lostack", code: 1}, {kind: "kerr", code: 6}, {kind: "kerr", code: 10}, {kind: "drop", code: 2}, {kind: "lostack", code: 0}}[i%6]
+	first.gate = "p1"
+	sc.faults[tpKey{"t", 0}] = []fault{first, {kind: "ok"}, {kind: "ok"}}
 	return sc
 }
 
@@ -961,7 +998,17 @@ func run(sc *scenario, out *bufio.Writer) {
 				if lc.spec.cancel {
 					var cancel context.CancelFunc
 					ctx, cancel = context.WithCancel(ctx)
-					time.AfterFunc(time.Duration(jr.Intn(1500))*time.Microsecond, cancel)
+					switch lc.spec.cancelOn {
+					case "":
+						time.AfterFunc(time.Duration(jr.Intn(1500))*time.Microsecond, cancel)
+					case "pre":
+						cancel()
+					default:
+						go func(gate string) {
+							f.waitReached(gate)
+							cancel()
+						}(lc.spec.cancelOn)
+					}
 				}
 				err := w.WriteMessages(ctx, lc.msgs...)
 				rmu.Lock()
@@ -989,6 +1036,11 @@ func run(sc *scenario, out *bufio.Writer) {
 		waitTimeout(&wg, 6*time.Second) // all later (async) calls are queued behind the held batch
 		time.Sleep(2 * sc.timeout)
 		f.open("p1")
+	case sc.special == "ctxhold":
+		f.waitReached("p1") // the first batch of the call to be cancelled is at the broker (held)
+		waitEventArg("W.Return", 1, "ctx", 2*time.Second)
+		time.Sleep(1500 * time.Microsecond) // the caller's next call gets queued behind the held batch
+		f.open("p1")
 	case sc.closeAt >= 0:
 		time.Sleep(sc.closeAt)
 		go doClose()
@@ -1008,9 +1060,23 @@ func run(sc *scenario, out *bufio.Writer) {
 			// to a batch, PW.Attempt names the batch) — an attempt that dies before it reaches a broker still counts
 			unsent = 0
 			okcalls := map[string]int{}
+			// a call that returned ctx.Err() from its wait for the batches (W.Return … ctx) has queued all its messages:
+			// they must get produced like those of any other call
+			ctxWaited := map[int]bool{}
+			for _, e := range kafka.VerifSnapshot() {
+				if e.Kind == "W.Return" && len(e.Args) > 1 && e.Args[1] == "ctx" {
+					for ci := range live {
+						for _, lc := range live[ci] {
+							if lc.ptr == e.Args[0] {
+								ctxWaited[lc.spec.id] = true
+							}
+						}
+					}
+				}
+			}
 			rmu.Lock()
 			for _, r := range results {
-				if r.code == "ok" || strings.HasPrefix(r.code, "werr") {
+				if r.code == "ok" || strings.HasPrefix(r.code, "werr") || (r.code == "ctx" && ctxWaited[r.call]) {
 					for ci := range live {
 						for _, lc := range live[ci] {
 							if lc.spec.id == r.call {
@@ -1179,6 +1245,19 @@ func b2i(b bool) int {
 	return 0
 }
 
+func waitEventArg(kind string, idx int, val string, max time.Duration) bool {
+	deadline := time.Now().Add(max)
+	for time.Now().Before(deadline) {
+		for _, e := range kafka.VerifSnapshot() {
+			if e.Kind == kind && len(e.Args) > idx && e.Args[idx] == val {
+				return true
+			}
+		}
+		time.Sleep(200 * time.Microsecond)
+	}
+	return false
+}
+
 func waitEvent(kind string, max time.Duration) bool {
 	deadline := time.Now().Add(max)
 	for time.Now().Before(deadline) {
@@ -1283,6 +1362,9 @@ func main() {
 	}
 	for i := 0; i < 12*extra && failedScenarios < 3; i++ {
 		run(b.wireScenario(i), out)
+	}
+	for i := 0; i < 12*extra && failedScenarios < 3; i++ {
+		run(b.ctxHold(i), out)
 	}
 	for i := 0; i < n && failedScenarios < 3; i++ {
 		run(b.random(i, thorough), out)
